@@ -464,9 +464,18 @@ func c07Oracle(c *fw.Ctx, w *vs.World, name, kind string, k connCfg, st *c07Stat
 type c07ConcParams struct {
 	K      connCfg
 	Closer string // CloseNow | peerClose | ctx
+	Prop   string // "" = C07; "C03": B's valid stream must yield B's message
+	// BLate: the second half of B's message arrives only when A's reader has returned, so B is in
+	// the middle of its message (waiting) while A's reader unwinds
+	BLate bool
 }
 
-func (p c07ConcParams) name() string { return "conc-" + p.Closer + "/" + p.K.String() }
+func (p c07ConcParams) name() string {
+	if p.BLate {
+		return "conc-" + p.Closer + "-blate/" + p.K.String()
+	}
+	return "conc-" + p.Closer + "/" + p.K.String()
+}
 
 func c07ConcSetup(prm c07ConcParams) func(c *fw.Ctx, name string) explore.Setup {
 	return func(c *fw.Ctx, name string) explore.Setup {
@@ -474,6 +483,8 @@ func c07ConcSetup(prm c07ConcParams) func(c *fw.Ctx, name string) explore.Setup 
 			st := &c07State{conns: map[byte]*c07Conn{}}
 			vsync.PoolLogging = true
 			k := prm.K
+			var bErr error
+			bGot, bDone := 0, false
 			w.GoHarness("main", true, func() {
 				a := c07Open(st, k, 'A', 1)
 				a.p.SplitRead = true
@@ -489,7 +500,9 @@ func c07ConcSetup(prm c07ConcParams) func(c *fw.Ctx, name string) explore.Setup 
 				}
 				bg := vctx.Background()
 				ctx, cancel := vctx.WithCancel(bg)
+				readerADone := false
 				w.GoHarness("readerA", true, func() {
+					defer func() { readerADone = true }()
 					buf := make([]byte, 400)
 					for {
 						_, r, err := a.c.Reader(ctx)
@@ -517,25 +530,52 @@ func c07ConcSetup(prm c07ConcParams) func(c *fw.Ctx, name string) explore.Setup 
 				})
 				w.GoHarness("openerB", true, func() {
 					b := c07Open(st, k, 'B', 1)
+					if prm.BLate {
+						rest := append([]byte(nil), b.p.In[len(b.p.In)/2:]...)
+						b.p.In = b.p.In[:len(b.p.In)/2]
+						w.GoHarness("peerB", false, func() {
+							vs.BlockOn(b.p.RObj(), "wait-readerA", func() bool { return readerADone }, func() {})
+							b.p.Send(rest)
+						})
+					}
 					buf := make([]byte, 400)
 					for i := 0; i < 1; i++ {
 						_, r, err := b.c.Reader(bg)
 						if err != nil {
+							bErr = err
 							return
 						}
 						for {
 							m, err := r.Read(buf)
 							st.check(b, "read", buf[:m])
+							bGot += m
 							if err != nil {
+								if err != io.EOF {
+									bErr = err
+								}
 								break
 							}
 						}
 					}
+					bDone = true
 					b.c.CloseNow()
 				})
 			})
 			return func(complete bool) {
 				if !complete {
+					return
+				}
+				P := prm.Prop
+				if P == "" {
+					P = "C07"
+				}
+				if w.Panic == "" && !w.Deadlock && !w.HorizonHit && (bErr != nil || (bDone && bGot != c07MsgLen)) {
+					// B is a fresh connection with a healthy transport and a valid stream
+					violate(c, w, name, P+"/other-connection-disturbed/read/conc-"+prm.Closer+"/"+k.String(), fmt.Sprintf("connection B (fresh, healthy transport, one valid %d-byte message) read %d bytes and got the error %v while connection A was being closed in the middle of a message: they share a pooled object", c07MsgLen, bGot, bErr))
+					return
+				}
+				if prm.Prop != "" {
+					c.OutcomeStr(fmt.Sprintf("%s|b=%d", name, bGot))
 					return
 				}
 				c07Oracle(c, w, name, "conc-"+prm.Closer, k, st)
@@ -792,6 +832,23 @@ func c07CrossScenarios(prop string) func(tier string) []scenario {
 	}
 }
 
+// c03PoolScenarios: the read-side three-party history judged by C03's clause on the
+// bystander: connection B receives a valid stream, so its read yields B's message.
+func c03PoolScenarios(tier string) []scenario {
+	var scs []scenario
+	p := 1
+	if tier == "thorough" {
+		p = 2
+	}
+	for _, k := range []connCfg{{Client: false, Flate: true, CNCT: true, SNCT: true}, {Client: true, Flate: true, CNCT: true, SNCT: true}} {
+		for _, cl := range []string{"CloseNow", "ctx"} {
+			prm := c07ConcParams{K: k, Closer: cl, Prop: "C03", BLate: true}
+			scs = append(scs, scenario{Name: prm.name(), Cfg: explore.Config{P: p, Horizon: 60e9}, Setup: c07ConcSetup(prm)})
+		}
+	}
+	return scs
+}
+
 func c07Scenarios(tier string) []scenario {
 	var scs []scenario
 	depth := 3
@@ -891,6 +948,10 @@ func c07Scenarios(tier string) []scenario {
 				pk.P = 1 // executions that inflate with context takeover are ~10x slower
 			}
 			scs = append(scs, scenario{Name: prm.name(), Cfg: pk, Setup: c07ConcSetup(prm)})
+			if k.Flate && k.CNCT && (cl == "CloseNow" || cl == "ctx") {
+				prm.BLate = true
+				scs = append(scs, scenario{Name: prm.name(), Cfg: pk, Setup: c07ConcSetup(prm)})
+			}
 		}
 	}
 	return scs
@@ -928,6 +989,10 @@ func init() {
 			Replay: replayFn(scs),
 		})
 	}
+	fw.Register(fw.Part{Prop: "C03", Name: "s.pools",
+		Units:  func(tier string) []fw.Unit { return scenarioUnits(c03PoolScenarios(tier)) },
+		Replay: replayFn(c03PoolScenarios),
+	})
 	fw.Register(fw.Part{Prop: "C01", Name: "s.pools",
 		Units:  func(tier string) []fw.Unit { return scenarioUnits(c01PoolScenarios(tier)) },
 		Replay: replayFn(c01PoolScenarios),
